@@ -111,8 +111,6 @@ def exhaustive_small_graphs(ctx, kind, n, chunk, nchunks, step):
     n_graphs = 0
     for code in range(chunk, total, nchunks * step if step > 1 else nchunks):
         edges = [p for i, p in enumerate(pairs) if (code >> i) & 1]
-        if directed and any((b, a) in edges for a, b in edges):
-            continue            # graphs with antiparallel pairs collapse weights in scipy; outside the statement's directed scope
         n_graphs += 1
         tag = '%s%d#%d' % (kind[0], n, code)
         ctx.case(dict(graph=kind, n_vertices=n, edges=[list(e) for e in edges], queries='adjacency, neighbours, every mask, cycles, tree, all start/end paths, shortest paths, MST per root'),
